@@ -22,10 +22,29 @@ type scriptedReader struct {
 	maxLog  int
 	past    bool // a Read was served after EOF/fault was already returned
 	ended   bool
+	ferr    error // the fault's error value (errFault unless the script names another)
+}
+
+// lenReader is a scriptedReader that also tells how much is left, as
+// bytes.Reader, bytes.Buffer and strings.Reader do.
+type lenReader struct{ *scriptedReader }
+
+func (r lenReader) Len() int {
+	end := len(r.data)
+	if r.cut >= 0 && r.cut < end {
+		end = r.cut
+	}
+	if r.fault >= 0 && r.fault < end {
+		end = r.fault
+	}
+	if r.pos >= end {
+		return 0
+	}
+	return end - r.pos
 }
 
 func newScripted(data []byte, chunks []int) *scriptedReader {
-	return &scriptedReader{data: data, chunks: chunks, cut: -1, fault: -1, maxLog: 1 << 30}
+	return &scriptedReader{data: data, chunks: chunks, cut: -1, fault: -1, maxLog: 1 << 30, ferr: errFault}
 }
 
 const (
@@ -60,7 +79,7 @@ func (r *scriptedReader) Read(p []byte) (int, error) {
 		r.ended = true
 		if r.fault >= 0 && r.pos >= r.fault {
 			r.log(req, 0, rFault)
-			return 0, errFault
+			return 0, r.ferr
 		}
 		r.log(req, 0, rEOF)
 		return 0, io.EOF
@@ -89,7 +108,7 @@ func (r *scriptedReader) Read(p []byte) (int, error) {
 	if r.withErr && r.pos == end && r.fault >= 0 && r.pos >= r.fault {
 		r.ended = true
 		r.log(req, n, rFault)
-		return n, errFault
+		return n, r.ferr
 	}
 	r.log(req, n, rOK)
 	return n, nil
